@@ -4,7 +4,7 @@ import dataclasses
 import re
 
 BCRYPT_HASH_REGEX = re.compile(
-    r"^\$(?P<prefix>(2a|2b|2y))\$(?P<rounds>\d+)\$(?P<salt>.{22})(?P<hash>.{31})$"
+    r"^\$(?P<prefix>(2a|2b|2y))\$(?P<rounds>[0-9]{1,2})\$(?P<salt>.{22})(?P<hash>.{31})$"
 )
 
 
